@@ -57,17 +57,25 @@ def goenv():
 def build_zv(cover=False):
     """Build the harness against /repo's current working tree, hooks enabled."""
     os.makedirs(BUILD, exist_ok=True)
+    hdir = HARNESS
+    out = os.path.join(BUILD, "zv")
+    if os.path.realpath(REPO) != "/repo":
+        # development aid: check a scratch copy of the repository (VERIF_REPO=/path)
+        hdir = os.path.join(scratch(), "harness")
+        shutil.copytree(HARNESS, hdir)
+        gm = open(os.path.join(hdir, "go.mod")).read().replace("=> /repo", "=> " + os.path.realpath(REPO))
+        open(os.path.join(hdir, "go.mod"), "w").write(gm)
+        out = os.path.join(scratch(), "zv")
     try:
-        shutil.copy(os.path.join(REPO, "go.sum"), os.path.join(HARNESS, "go.sum"))
+        shutil.copy(os.path.join(REPO, "go.sum"), os.path.join(hdir, "go.sum"))
     except OSError:
         pass
-    out = os.path.join(BUILD, "zv")
     cmd = ["go", "build", "-tags", "verif", "-o", out, "./cmd/zv"]
-    p = subprocess.run(cmd, cwd=HARNESS, env=goenv(), capture_output=True, text=True)
+    p = subprocess.run(cmd, cwd=hdir, env=goenv(), capture_output=True, text=True)
     if p.returncode != 0:
         e = goenv()
         e["GOTOOLCHAIN"] = "local"
-        p2 = subprocess.run(["go1.26"] + cmd[1:], cwd=HARNESS, env=e, capture_output=True, text=True)
+        p2 = subprocess.run(["go1.26"] + cmd[1:], cwd=hdir, env=e, capture_output=True, text=True)
         if p2.returncode != 0:
             raise Inconclusive("harness does not build against /repo:\n" + p.stderr[-3000:] + p2.stderr[-1000:])
     return out
